@@ -1063,7 +1063,7 @@ func init() {
 		ID:    "C15",
 		Level: "exploration",
 		Rule: "part lattice (exhaustive over the enumerated lattice): every alias x 5 spellings (lower, upper, title, plural, upper plural) of every unit as source x every alias of every unit of the family as target x boundary values {0, +-1, factor-1, factor, factor+1 for every unit step, 2^53+-1, MaxInt64, MinInt64, ...}; plus auto/minimum, negation, unknown and foreign targets. part random: random int64 values, unknown source units. part labels: Label read back through its printed unit within half a display digit, monotone. part drivertop: the real driver's -top -unit=<any alias | minimum> on a profile whose sample unit is any spelling: every flat value read back through the unit it is printed in lies within half a display digit of the exact value, and an explicit unit is the one shown; the same values under -divide_by printed one by one by -traces (a unit per value) must read back as value/divide_by; for time-typed profiles with a duration the legend's 'total as a percentage of the duration' must be total/duration within display rounding. part percentage. part scaleprofiles: 2-4 profiles with two measured columns (bytes, time or GCU family; half of the time both of the same family so that one unit string needs two different conversions) next to a non-convertible column; every column must be harmonised to the finest unit among the inputs, sample counts and the other column unchanged, physical totals exact (GCU: within 1e-12 relative); every fifth case one profile's column is in an unknown unit or in a unit of another family, at any position of the list, and ScaleProfiles must refuse. " +
-			"oracle: exact math/big.Rat unit tables (1e-12 relative tolerance for float64). non-trivial = every case; distinct = distinct (source spelling, values)",
+			"oracle: exact math/big.Rat unit tables (1e-12 relative tolerance for float64). part nodelets: numeric tag values on DOT nodelets read back and compared with the tag values (two-way cover). part parallel: labels formatted from many goroutines equal the sequential ones. part tagrange: tagfocus/tagignore ranges with units compared exactly against the converted bounds. non-trivial = every case; distinct = distinct (source spelling, values)",
 		Assumptions: []string{"unit tables as documented in pprof's measurement package: B..PB powers of 1024; ns/us/ms/s/hrs; GCU SI prefixes", "results are float64: exact ratio and identity are judged within 1e-12 relative error (1 ulp differences from multiply-then-divide are not display-visible)"},
 		Parts: []harness.Part{
 			{Name: "lattice", Quick: len(fromSpecs), Thor: len(fromSpecs), Run: runLattice},
